@@ -24,3 +24,15 @@ claim("C04", "proof",
       "heap level proved in Lean for all heaps/roots/histories (a collection keeps every reachable cell bit-identical with its edges, touches nothing else of the machine); VM level: every program is run under several schedules and heap sizes on the real VM and on the Lean VM in lockstep, outcomes compared across schedules",
       "Lean kernel + standard axioms; roots-complete-at-safe-points is validated by lockstep replay, not proved; C-stack depth of the recursive marker is runtime",
       "Lean 4 refinement of the collector to a reachability spec + schedule-differential lockstep correspondence", "DESIGN.md §3 C04")
+claim("C13", "proof",
+      "Lean theorem on the VM model: the emitted last-call sequence (args; func; SLIDE n+L n+1; CALL, no MARK) re-enters the callee in exactly the fresh-entry configuration (sp = fp + n, same fp, new arguments in the parameter slots) for every machine state, so the entry height is independent of the iteration count; tied by lockstep traces; peak sp measured at N and 10N on the real VM for every tail shape and the marked call checked in the dumped code",
+      "Lean kernel + standard axioms; tailrec.c's position analysis is observed (SLIDE;CALL emitted, constant peak sp), not modelled",
+      "Lean 4 proof over the SLIDE copy loop + lockstep correspondence + peak-sp measurement", "DESIGN.md §3 C13")
+claim("C14", "proof",
+      "Lean theorems on the VM model: a checked push is in bounds or reported before any write; MARK is proved in bounds when the frame fits and proved to write before checking when it does not (general counterexample = the pinned-tree defect, replayed under ASan as a known finding); the stack test is monotone in the size; heap exhaustion is reported exactly when all cells are in use; tied by lockstep traces over a grid of stack and heap sizes",
+      "Lean kernel + standard axioms; ALLOC/RECORD_UNPACK/DUP write-before-check are covered by trace correspondence and ASan, not by a separate theorem",
+      "Lean 4 frame lemmas + size-grid lockstep correspondence under ASan", "DESIGN.md §3 C14")
+claim("C15", "proof",
+      "VM side: Lean theorem that a MARK…RET frame restores fp/pp/gp exactly and nets one slot, hence every nev_execute returns with sp_before + 1 (counterexample to execute_restores_sp for every program = known finding), first/later execute entry logic; seeded API histories (several entry points, failing first call) replayed in lockstep; entry lookup checked against the function table; compile determinism checked differentially after other compilations kept alive",
+      "Lean kernel + standard axioms; the compile-determinism half is differential testing (no table of file-scope globals was extracted)",
+      "Lean 4 frame round-trip theorem + API-history lockstep correspondence + differential compile determinism", "DESIGN.md §3 C15")
